@@ -209,7 +209,7 @@ add(
     "rows, -1 rows, rows of discarded reads) is rebuilt from the reads and the matches of the reference model and "
     "compared line by line. Scenarios that remove bases from the searched 5' end before adapter trimming hit the "
     "known finding F7 and are checked for the clauses that can still hold.",
-    "Held on everything explored outside known finding F7 (listed in known_findings.json with a narrow signature).",
+    "Held on everything explored outside the known findings F7 and F16 (listed in known_findings.json with narrow signatures).",
     "DESIGN.md section 4, C17",
 )
 add(
@@ -287,6 +287,43 @@ add(
     "'Never hangs' is decided exactly in the simulator and by a generous time bound for real runs.",
     "DESIGN.md sections 3.5 and 4, C12",
 )
+
+# sub-checks added later (DESIGN.md sections 9.2 and 10), appended to the descriptions above
+EXTRA = {
+    "C01": "The history sub-check also compares a pickled copy of the adapter with a fresh one; the multi-source CLI "
+           "sub-check keeps indexing enabled and validates rows that come from an index directly against the statement.",
+    "C02": "The command-line sub-check also draws families of anchored adapters (equal or different lengths, a lone "
+           "adapter of the other kind next to them), soft-masked reads, near misses and reads with N in the adapter copy; "
+           "for an indexed adapter a match is demanded when it is the only one occurring at the anchored end of an "
+           "ACGT-only read.",
+    "C03": "--action=retain with a linked adapter (parts exact or with one edit) is checked against the interval from "
+           "the start of the 5' match to the end of the 3' match.",
+    "C06": "Scenarios include name- and quality-rewriting options, main output on standard output (with --fasta), "
+           "adapter indexes, inputs without reads, and alternating exact/edited/N-containing copies of the reads so that "
+           "state carried inside a worker from one read to the next becomes visible.",
+    "C07": "Reads of tens of kilobases (occurrence across power-of-two offsets) and a pickle round trip of the adapter "
+           "are included.",
+    "C08": "Sets with mixed per-adapter indel settings and tolerances, duplicate sequences, soft-masked reads; a history "
+           "sub-check feeds several reads (many with N) to one index object and demands the answer of a fresh index.",
+    "C09": "The command-line sub-check leaves indexing at its default where no index can be built, draws complete-tie "
+           "families (one sequence as ^, $ and regular adapter), repeats the run with the same adapters as R2 adapters, "
+           "and asserts the documented required/optional flags of linked adapters.",
+    "C13": "The command-line slice includes --nextseq-trim 0 and 5'-only cutoffs (-q N,0).",
+    "C15": "A real-process sub-check demultiplexes into more files than a lowered soft open-file limit allows at once.",
+    "C16": "The command-line slice also runs with 2-3 cores and adds direction-sensitive later stages (--poly-a, -l, "
+           "-x/-y) after the orientation decision.",
+    "C17": "A paired-end sub-check reconstructs the rows of R1 after the orientation decision (known finding F16 for "
+           "swapped pairs); filters drawn include --discard-casava and --max-n.",
+    "C18": "Specifications also go through cutadapt's argument parser and adapters_from_args (global options must "
+           "reach R1 and R2 adapters alike); adapters of realistic length (30-110 nt) are drawn and an absolute error "
+           "value E is probed behaviourally (the adapter with E substitutions must be found).",
+    "C19": "Compression levels, --fasta on standard output next to redirect files without a recognised extension, and "
+           "real-process runs under the spawn and forkserver start methods are included.",
+    "C20": "Identical named adapters for R1 and R2 are drawn; the text report's per-adapter totals are compared with JSON.",
+}
+for _k, _v in EXTRA.items():
+    _c = CHECKS[_k]
+    CHECKS[_k] = (_c[0], _c[1], _c[2] + " " + _v, _c[3], _c[4])
 
 NOT_APPLICABLE = []  # filled below for every property without a check
 
